@@ -113,10 +113,10 @@ CLAIMED.update({
    technique=VT, ref="DESIGN.md §4 C14, §6"),
  "C18": dict(
    text="Deductive proof on the real text of WTClient::{add_update_tower, add_appointment_receipt, add_pending_appointment, remove_pending_appointment, add_invalid_appointment, move_pending_appointment_to_invalid, "
-        "flag_misbehaving_tower, set_tower_status, remove_tower, get_tower_status}: the in-memory TowerSummary map mirrors the persisted relations after every mutator (mirror invariant: same towers, same pending/invalid sets, "
+        "flag_misbehaving_tower, set_tower_status, remove_tower, has_appointment, with_proxy} and the commands abandon_tower / register of main.rs: the in-memory TowerSummary map mirrors the persisted relations after every mutator (mirror invariant: same towers, same pending/invalid sets, "
         "status consistent with pending data / stored proof), every mutator touches only the addressed tower's rows (same_but frame over all seven relations), abandon deletes all and only that tower's rows, and a shared "
         "appointment body is deleted exactly when no other pending/invalid reference remains.",
-   note=PT + " Reload after restart is covered through the mirror invariant and the DBM::load_towers stub contract (WTClient::new is async constructor glue, not under contract). F9 (a second record of the same kind for one "
+   note=PT + " Reload after restart: WTClient::with_proxy is under contract (mirror and the status rule hold for what DBM::load_towers returns; assumption A7: the on-disk database was written by this code). F9 (a second record of the same kind for one "
         "(tower, locator) hits a UNIQUE constraint and unwraps) is expressed as preconditions pre.no-duplicate-* and checked at the call sites under contract.",
    technique=VT, ref="DESIGN.md §4 C18, §6"),
 })
